@@ -110,15 +110,33 @@ class PgMgrEnv(PgEnv):
         v = s.tgt(M, st, a[0])
         if isinstance(v, Agg) and v.ty == 'RwGuard': return s.ret(st, v.f[0].field(0))
         if isinstance(v, Agg) and v.ty == 'ClientWrapper': return None
+        if isinstance(v, Agg) and v.ty == 'Cow':
+            pv = payload(v)
+            return s.ret(st, pv if isinstance(pv, Ref) else a[0].field((v.variant, 0)))
         return super()._deref(M, st, th, ci, a)
 
     def p_HashMap__new(s, M, st, th, ci, a): return s.ret(st, Agg('HashMap', [()]))
     def key_eq(s, M, st, k1, k2):
-        """StatementCacheKey equality: query text and parameter types (the derived PartialEq compares both fields)"""
-        q1 = sterm(M, st, payload(k1.f[0])); q2 = sterm(M, st, payload(k2.f[0]))
-        t1 = s.types_of(M, st, k1.f[1]); t2 = s.types_of(M, st, k2.f[1])
-        if t1 != t2: return False
-        return simp(q1 == q2)
+        """StatementCacheKey equality is whatever the crate's `PartialEq::eq` for the key type computes: its MIR (derived or hand-written)
+        is executed on a scratch thread -> list of (state, z3 Bool / bool).  Hashing is not modelled: the map is an association list, so
+        a Hash that is coarser than Eq is harmless here as it is in std; a Hash finer than Eq is outside the claim."""
+        from .core import Thread
+        fn = [n for n in M.fns if n.endswith('::eq') and M.fns[n].params and 'StatementCacheKey' in M.fns[n].params[0][1]]
+        if len(fn) != 1: raise Unmodelled(f'PartialEq::eq of StatementCacheKey: {len(fn)} bodies')
+        st = st.clone()
+        r1 = st.alloc(k1); r2 = st.alloc(k2)
+        th = Thread('keyeq', 'async'); st.threads['keyeq'] = th; th.result = None
+        M.push_mir(st, th, fn[0], [Ref(r1), Ref(r2)])
+        saved = M.task_mode; M.task_mode = True; outs = []
+        try:
+            for st2 in M.run(st, 'keyeq'):
+                r = st2.threads['keyeq'].result
+                if not r or r[0] != 'ok': raise Unmodelled('PartialEq::eq of StatementCacheKey panicked')
+                del st2.threads['keyeq']; st2.heap.pop(r1, None); st2.heap.pop(r2, None)
+                outs.append((st2, r[1]))
+        finally:
+            M.task_mode = saved
+        return outs
     def _lookup(s, M, st, mref, key):
         """-> list of (state, index or None) forking on symbolic key equality"""
         res = []; work = [(st, 0)]
@@ -126,10 +144,33 @@ class PgMgrEnv(PgEnv):
             x, i = work.pop()
             ent = M.deref(x, mref).f[0]
             if i >= len(ent): res.append((x, None)); continue
-            for y, eq in M.fork_on(x, s.key_eq(M, x, ent[i][0], key)):
-                if eq: res.append((y, i))
-                else: work.append((y, i + 1))
+            for x1, e in s.key_eq(M, x, ent[i][0], key):
+                for y, eq in M.fork_on(x1, e):
+                    if eq: res.append((y, i))
+                    else: work.append((y, i + 1))
         return res
+
+    # what the key's eq looks at: Cow<str> compares as text, Cow<[Type]> element-wise, a Type by identity (its OID is an injective
+    # function of the identity for the built-in types used here)
+    OIDS = {'INT4': 23, 'TEXT': 25}
+    def t_PartialEq__eq(s, M, st, th, ci, a):
+        def un(v):
+            for _ in range(6):
+                if isinstance(v, Ref): v = M.deref(st, v); continue
+                break
+            return v
+        x, y = un(a[0]), un(a[1])
+        if isinstance(x, Agg) and isinstance(y, Agg) and x.ty == 'Cow' and y.ty == 'Cow': x, y = un(payload(x)), un(payload(y))
+        if isinstance(x, Agg) and isinstance(y, Agg) and x.ty in ('TypeList', 'Vec', 'array') and y.ty in ('TypeList', 'Vec', 'array'):
+            return s.ret(st, s.types_of(M, st, x) == s.types_of(M, st, y))
+        if isinstance(x, Agg) and isinstance(y, Agg) and x.ty == 'Type' and y.ty == 'Type': return s.ret(st, x.f[0].tag == y.f[0].tag)
+        try:
+            return s.ret(st, simp(sterm(M, st, x) == sterm(M, st, y)))
+        except InternalError:
+            return super().t_PartialEq__eq(M, st, th, ci, a)
+    def p_Type__oid(s, M, st, th, ci, a):
+        v = M.deref(st, a[0]) if isinstance(a[0], Ref) else a[0]
+        return s.ret(st, I(s.OIDS[v.f[0].tag], 32))
     def p_HashMap__get(s, M, st, th, ci, a):
         key = M.deref(st, a[1]) if isinstance(a[1], Ref) else a[1]
         return [('ret', x, NONE if i is None else some(a[0].field(0)) if False else (NONE if i is None else some(Ref(x.alloc(M.deref(x, a[0]).f[0][i][1]))))) for x, i in s._lookup(M, st, a[0], key)]
